@@ -130,9 +130,11 @@ TPack == /\ Rec[l].ev = "pack"
 LPackAgrees(e) ==
   LET o == LumaOrders[e.order] IN
   /\ e.panic = 0
-  /\ Len(e.packs) = 2 /\ Len(e.unpacks) = 2
-  /\ \A i \in DOMAIN e.packs : e.packs[i] = Pack(LumaChannels, o, e.c)
-  /\ \A i \in DOMAIN e.unpacks : e.unpacks[i] = Unpack(LumaChannels, o, e.c)
+  /\ Len(e.packs) = 3 /\ Len(e.unpacks) = 3 /\ Len(e.packs_l) = 1 /\ Len(e.unpacks_l) = 1
+  /\ \A i \in DOMAIN e.packs : e.packs[i] = Pack(LumaChannels, o, e.c)                 \* array, u16, into_u16
+  /\ \A i \in DOMAIN e.unpacks : e.unpacks[i] = Unpack(LumaChannels, o, e.c)           \* array, u16, from_u16
+  /\ e.packs_l[1] = Pack(LumaChannels, o, <<e.c[1], 255>>)                              \* Luma::into_u16: opaque
+  /\ e.unpacks_l[1] = <<Unpack(LumaChannels, o, e.c)[1]>>                               \* Luma::from_u16 drops the alpha byte
 
 TLPack == /\ Rec[l].ev = "lpack"
           /\ LPackAgrees(Rec[l])
